@@ -249,7 +249,13 @@ def run_impl(case):
         return [1, r] if isinstance(r, int) else [2, r]
 
     res1 = [do(op) for op in case["ops1"]]
-    mon = event.Monitor(em, trigger=MODES[case["cfg"]["montrig"]])
+    try:
+        mon = event.Monitor(em, trigger=MODES[case["cfg"]["montrig"]])
+    except Exception:
+        # the API results are still worth reporting: the oracle looks at them and at the refusal itself
+        em.freeze()
+        res2 = [do(op) for op in case["ops2"]]
+        return [res1, res2, [], [-1, -1, -1]]
     res2 = [do(op) for op in case["ops2"]]
     # what the design will contain: the map's own view at elaboration time
     inmap = [ident.get(id(s), -9) for s, _ in mon.src.event_map.sources()]
@@ -257,7 +263,10 @@ def run_impl(case):
     ins = [objs[j].i for j in watch] + [mon.enable, mon.clear]
     outs = [objs[j].trg for j in watch] + [mon.pending, mon.src.i]
     stim = [[iv[j] for j in watch] + [en, cl] for (iv, en, cl) in case["stim"]]
-    rows = S.simulate(mon, ins, outs, stim)
+    try:
+        rows = S.simulate(mon, ins, outs, stim)
+    except Exception:
+        return [res1, res2, [], [-1, -1, -1]]
     obs = []
     for r in rows:
         tr = [[] for _ in objs]
@@ -335,6 +344,9 @@ def oracle(case, obs):
     if srcs is None:
         return out
     n = len(srcs)
+    if widths == [-1, -1, -1]:
+        out.append(("C13", "monitor", f"event.Monitor() or its elaboration raised for an event map the API built ({n} sources numbered {srcs})"))
+        return out
     if widths != [n, n, n]:
         out.append(("C13", "widths", f"enable/pending/clear are {widths} bits wide for {n} sources"))
     modes = case["cfg"]["modes"]
